@@ -91,7 +91,13 @@ func execute(prop string, sc interface{}, rs int64, tape []int, replay bool, tra
 		cfg.Replay = true
 		cfg.Tape = tape
 	}
-	return detsim.Run(cfg, func() { fam.Run(sc) })
+	res := detsim.Run(cfg, func() { fam.Run(sc) })
+	if fam.Post != nil && res.Violation == nil && res.Infra == "" {
+		if class, detail := fam.Post(sc); class != "" {
+			res.Violation = &detsim.Violation{Class: class, Detail: detail}
+		}
+	}
+	return res
 }
 
 func decodeFresh(prop string, raw json.RawMessage) interface{} {
